@@ -10,7 +10,7 @@ import PolyVerif.Model.MeshHeap
     GRAPH of the result: every slice as `a<id>+off:len` (an array that existed before), `n<k>+off:len` (the k-th
     array allocated by the operation, numbered by first appearance) or `z` (no capacity); every map as `m<id>`,
     `f<k>` or `nil`.  The harness prints the same description of what the implementation really returned.
-  * `c01.holds.immutable h step mesh d0 d1` — digests of one mesh's observable value at entry and now.
+  * `c01.holds.immutable h step mesh lastop d0 d1` — digests of one mesh's observable value at entry and now.
   * `c01.holds.immutable_full h mesh <snapshot> | <snapshot>` — both complete snapshots; parsed into the model's
     `MeshObs` and compared with its decidable equality (the predicate `history_immutable` is stated about).
 -/
@@ -265,7 +265,7 @@ def handle (op : String) (args : List String) : Option String :=
     | _ => none
   | "c01.holds.immutable" =>
     match args with
-    | [_, _, _, d0, d1] => some (boolStr (d0 == d1))
+    | [_, _, _, _, d0, d1] => some (boolStr (d0 == d1))
     | _ => none
   | "c01.holds.immutable_full" =>
     match fullRequest.run args with
